@@ -46,7 +46,7 @@ CLAIMS = {
                 'RecordAfterAlters, Converged and RerunIsNoOp using the settings keys the code really uses (read off a recorded run). The real '
                 'maintenance.Rotate is swept over fakeconn (configurations x statement x window, re-runs, configuration changes) with semantic checks '
                 'of every table\'s final TTL (clamps, disks, drop days) and policy, and its statement logs are validated as Rotate behaviours by TLC.',
-        'note': 'fakeconn models MODIFY TTL/SETTING as attribute replacement; TTL strings compared semantically.',
+        'note': 'fakeconn models MODIFY TTL/SETTING as attribute replacement; TTL strings compared semantically. No open finding: the revert-after-interrupted-change history TLC found with two configuration changes is repaired by decc735 (marker cleared before the first ALTER, action Invalidate); the variant without the clearing is a mutation TLC must refute.',
         'technique': 'TLA+ model checking (TLC) + fault/config sweep of the real Rotate + TLC trace validation',
         'design_ref': '5/C19',
     },
